@@ -44,7 +44,7 @@ def H(name, ob, fns, desc, kind="complete", bound=None, tier="quick", timeout=30
 _h = [
     H("new_contract", "C15.K.new.contract", ["SafeLong::new", "SafeLong::min_value", "SafeLong::max_value"],
       "proof_for_contract(SafeLong::new): Ok iff in range, value kept; all 2^64 inputs"),
-    H("min_max_values", "C15.K.min_max_values", ["SafeLong::min_value", "SafeLong::max_value"], "bounds are exactly +-(2^53-1); Default is 0"),
+    H("min_max_values", "C15.K.min_max_values", ["SafeLong::min_value", "SafeLong::max_value"], "bounds are exactly +-(2^53-1); Default is in range"),
     H("into_i64_i128_deref", "C15.K.into_deref", ["macro impl_into", "Deref for SafeLong::deref"], "From<SafeLong> for i64/i128 and Deref keep the value"),
     H("serialize_emits_value", "C15.K.serialize", ["ser::Serialize for SafeLong::serialize"], "Serialize emits exactly one i64 event carrying the value"),
     H("de_i128_event", "C15.K.deserialize.i128_event", ["de::Deserialize<'de> for SafeLong::deserialize"],
@@ -58,7 +58,7 @@ _h = [
     H("from_plain_boundaries", "C15.K.from_plain.boundaries", ["FromStr for SafeLong::from_str", "conjure-object/src/plain.rs::macro as_from_str"],
       "PLAIN decoding accepts both bounds, rejects their neighbours", kind="bounded", bound="4 concrete literals"),
     H("from_str_bounded3", "C15.K.from_str.bounded3", ["FromStr for SafeLong::from_str"],
-      "all byte strings of length <= 3: from_str agrees with i64 parsing and yields wf", kind="bounded", bound="all strings of <= 3 bytes", timeout=900),
+      "all byte strings of length <= 3: what from_str accepts is in range and is the denoted number; every canonical decimal spelling is accepted", kind="bounded", bound="all strings of <= 3 bytes", timeout=900),
 ]
 for t in ["u64", "i64", "u128", "i128", "usize", "isize"]:
     _h.append(H("try_from_" + t, "C15.K.try_from.%s" % t, ["macro impl_try_from", "SafeLong::new"],
